@@ -72,9 +72,11 @@ var embNames = []string{"bare", "nested-in-format", "upper-case",
 	// thorough tier only:
 	"mixed-case", "operand-of-not", "left-of-and-or", "right-of-or", "compared", "format-depth-2", "index-position", "deref-receiver",
 	// the placeholder is not the whole value (template positions only; quick: for four contexts):
-	"text-before-placeholder", "second-placeholder"}
+	"text-before-placeholder", "second-placeholder",
+	// text that holds the closing braces `}}` (a Go template, JSON) stands before the placeholder
+	"closing-braces-before-placeholder"}
 
-const embTextBefore, embSecond = 11, 12
+const embTextBefore, embSecond, embBraces = 11, 12, 13
 
 const quickEmbeddings = 3
 
@@ -271,7 +273,7 @@ func acceptsText(pi int) bool {
 	}
 	p := positions[pi]
 	ok := p.Form == 0
-	for _, v := range []string{"v-${{ 1 }}", "${{ 'x' }}-${{ 1 }}"} {
+	for _, v := range []string{"v-${{ 1 }}", "${{ 'x' }}-${{ 1 }}", "a }} ${{ 1 }}"} {
 		if !ok {
 			break
 		}
@@ -304,6 +306,8 @@ func makeCase(pi int, name string, isFn bool, emb int) lintCase {
 			value, off = "v-"+value, off+2
 		case embSecond:
 			value, off = "${{ 'x' }}-"+value, off+11
+		case embBraces:
+			value, off = "a }} "+value, off+5
 		}
 	}
 	r := render(p.Variant, p.ID, value)
@@ -581,7 +585,7 @@ func main() {
 
 	hx.Must(os.MkdirAll(*out, 0o755))
 	sum := hx.NewSummary("C12")
-	sum.Rule = "EXHAUSTIVE: every scalar value position of the every-key workflows x every context and special function of GitHub's table x embeddings (quick: bare, argument of format(), upper case; thorough: + mixed case, operand of !, of && and ||, of ==, format() at depth 2, index position, receiver of a dereference, placeholder after other text / after another placeholder of the same value), each planted alone into the otherwise clean workflow and linted through NewLinter+Lint; plus seeded deep expressions (several names, depth <= 4, every operator, random letter case; each occurrence judged by its column); plus WorkflowKeyAvailability on every (table key, name) pair and on unlisted keys; non-trivial = a not-allowed / undefined-variable diagnostic is reported at the planted position; distinct = distinct (position, form, name, embedding)"
+	sum.Rule = "EXHAUSTIVE: every scalar value position of the every-key workflows x every context and special function of GitHub's table x embeddings (quick: bare, argument of format(), upper case; thorough: + mixed case, operand of !, of && and ||, of ==, format() at depth 2, index position, receiver of a dereference, placeholder after other text / after another placeholder of the same value / after text holding `}}`), each planted alone into the otherwise clean workflow and linted through NewLinter+Lint; plus seeded deep expressions (several names, depth <= 4, every operator, random letter case; each occurrence judged by its column); plus WorkflowKeyAvailability on every (table key, name) pair and on unlisted keys; non-trivial = a not-allowed / undefined-variable diagnostic is reported at the planted position; distinct = distinct (position, form, name, embedding)"
 
 	// 0. the specification file is the transcription of the committed table
 	sum.Extra["spec_rows"] = len(sp.rows)
@@ -636,7 +640,7 @@ func main() {
 		if *tier != "thorough" && positions[pi].Form == 0 && acceptsText(pi) {
 			for _, c := range sp.contexts {
 				if c == "secrets" || c == "env" || c == "github" || c == "runner" {
-					cases = append(cases, makeCase(pi, c, false, embTextBefore), makeCase(pi, c, false, embSecond))
+					cases = append(cases, makeCase(pi, c, false, embTextBefore), makeCase(pi, c, false, embSecond), makeCase(pi, c, false, embBraces))
 				}
 			}
 		}
